@@ -431,7 +431,16 @@ std::string gen(Rng &r, const Args &a) {
       o << " (arith " << d << " " << AOP[r.below(r.below(3) ? 3 : 7)] << " v" << r.below(NV) << " v" << r.below(NV) << " " << z << ")";
     } else if (k < 30) {
       std::string z = r.coin() ? "v" + std::to_string(r.below(NV)) : std::to_string(r.range(0, 12));
-      o << " (bitw " << d << " " << BOP[r.below(6)] << " v" << r.below(NV) << " v" << r.below(NV) << " " << z << ")";
+      unsigned bo = r.below(6);
+      // a left shift by a variable amount is computed exactly by the non-relational domains: an amount that an earlier
+      // big constant made astronomically large aborts inside GMP (open finding F22 is about these amounts): in histories
+      // with big constants the amount is a small constant, or the variable is assigned one first
+      if (bo == 3 && z[0] == 'v' && big_ok) {
+        // (an assumed bound is not enough: domains that ignore inequalities keep the big constant)
+        if (r.coin()) o << " (assign " << d << " " << z << " (lin " << r.range(0, 12) << "))";
+        else z = std::to_string(r.range(0, 12));
+      }
+      o << " (bitw " << d << " " << BOP[bo] << " v" << r.below(NV) << " v" << r.below(NV) << " " << z << ")";
     } else if (k < 52) {
       o << " (assume " << d;
       unsigned n = 1 + (r.below(4) == 0 ? r.below(3) : 0);
